@@ -34,6 +34,44 @@ def group_rule(ctx, rid, regex, what, floor):
     return n
 
 
+def r_reviewed_grammar(ctx, rid, roots=None, mention=None):
+    """The grammar equals the reviewed grammar up to what cannot change a parse tree: silent helper rules, and the order of
+    alternatives whose first characters are pairwise disjoint.  `roots`: compare only the rules reachable from these."""
+    import json, os
+    from ..grammar import Grammar
+    ctx.rule(rid, 'reviewed grammar: every rule%s has the reviewed canonical form (silent rules inlined, order-irrelevant alternatives sorted); a changed, new or missing rule is an unreviewed change of the accepted language or of the parse tree' % ('' if roots is None else ' reachable from ' + '/'.join(sorted(roots))))
+    g = Grammar(ctx.facts().grammar)
+    cur = g.canonical()
+    frozen = json.load(open(os.path.join(os.path.dirname(os.path.dirname(os.path.dirname(os.path.abspath(__file__)))), 'tables', 'grammar.json')))['rules']
+
+    def closure(canon, roots):
+        import re
+        seen, todo = set(), list(roots)
+        while todo:
+            n = todo.pop()
+            if n in seen or n not in canon:
+                continue
+            seen.add(n)
+            todo += [w for w in re.findall(r'[A-Za-z_][A-Za-z0-9_]*', re.sub(r'"(\\.|[^"\\])*"', '', canon[n].split(': ', 1)[1])) if w in canon]
+        return seen
+    names = set(cur) | set(frozen)
+    if roots is not None:
+        names = closure(cur, roots) | closure(frozen, roots)
+    if mention is not None:
+        # the rules named in `mention` and every rule that refers to one of them directly
+        import re as _re
+        pat = _re.compile(r'\b(%s)\b' % '|'.join(sorted(mention)))
+        names = {n for n in names if n in mention or pat.search(_re.sub(r'"(\\.|[^"\\])*"', '', (cur.get(n) or '') + ' ' + (frozen.get(n) or '')))}
+    n = 0
+    for name in sorted(names):
+        n += 1
+        a, b = cur.get(name), frozen.get(name)
+        ctx.ob(rid, 'grammar-rule:' + name, a == b, 'rule %s = reviewed form' % name, 'src/minimal.pest (%s)' % name,
+               None if a == b else ('rule added: %s' % a if b is None else 'rule removed (reviewed: %s)' % b if a is None else 'now      %s\n     reviewed %s' % (a[:400], b[:400])))
+    ctx.floor(rid, 'grammar rules compared', n, 83 if roots is None and mention is None else 3)
+    return n
+
+
 def r_grammar_words(ctx, rid, order=True):
     ctx.rule(rid, 'reserved words are recognisable: inside a guarded keyword choice no earlier literal is a proper prefix of a later one (PEG ordered choice would commit to the shorter word and fail on the guard); an identifier alternative tried before a keyword alternative excludes that keyword by look-ahead')
     from ..grammar import Grammar
@@ -68,6 +106,7 @@ def check(ctx):
     n, f = table_rule(ctx, 'R04.1', lambda p: not EXCLUDE.match(p), 'the front end', guards.GUARD_FIELDS)
     table_rule(ctx, 'R04.1h', lambda p: bool(HELP.match(p)), 'predicate helpers of the front end (returned values compared as well)')
     r_grammar_words(ctx, 'R04.4')
+    r_reviewed_grammar(ctx, 'R04.6')
     ctx.floor('R04.1', 'front-end functions with a decision table', f, 55)
     ctx.floor('R04.1', 'decision rows', n, 300)
     from . import c03
